@@ -109,6 +109,9 @@ def cause(p, q, seps, alphabet) -> str:
                                           # a name is mistaken for the boundary
     if c1 + u1 == c2 + u2:
         return "boundary-not-marked"      # same characters, nothing marks where the computer name ends
+    from urllib.parse import unquote
+    if (unquote(c1), unquote(u1)) == (unquote(c2), unquote(u2)):
+        return "percent-escape-decoded"   # '%41' read as 'A'
     return "other"
 
 
@@ -301,6 +304,22 @@ def run(ctx):
     ctx.note(f"[C38] (a) {len(names)} names, {n_pairs} pairs, {len(groups)} distinct ids, {colliding_groups} colliding ids, "
              f"{colliding_pairpairs} colliding pair-pairs by cause {per_cause}; separator characters found: {seps}")
 
+    # part (a2): names built from tokens that include percent escapes (a name may well contain '%41' or '%2F' literally)
+    tokens = ["A", "/", "%", "%41", "%2F", "%2f", "%25"]
+    names2 = sorted({"".join(p) for n in (1, 2) for p in itertools.product(tokens, repeat=n)}, key=lambda x: (len(x), x))
+    groups2: dict[str, list] = {}
+    for c in names2:
+        for u in names2:
+            groups2.setdefault(engine_id((c, u)), []).append((c, u))
+    n_pairs2 = len(names2) ** 2
+    collisions2 = 0
+    for i, g in sorted(groups2.items()):
+        for p, q in itertools.combinations(sorted(g, key=lambda x: (len(x[0]) + len(x[1]), x)), 2):
+            collisions2 += 1
+            cz = cause(p, q, seps, alphabet)
+            ctx.violation(f"C38:collision:{cz}", f"engines {p!r} and {q!r} both get engine id {i!r}", {"part": "a", "pairs": [list(p), list(q)]})
+    ctx.note(f"[C38] (a2) {len(names2)} names from tokens {tokens}, {n_pairs2} pairs, {len(groups2)} distinct ids, {collisions2} colliding pair-pairs")
+
     # part (b)
     pairs = client_pairs(first_collision)
     depth = 12          # the state space closes at depth 10 on the unchanged tree; `bfs_state_space_closed` reports it
@@ -337,7 +356,8 @@ def run(ctx):
     if stats["refused"] == 0 or stats["con_refused"] == 0:
         raise HarnessError("BFS never reached a registration or a connect for an id that is currently connected")
     ctx.coverage.update(
-        evaluations=n_pairs + res.transitions, pairs_evaluated=n_pairs, names=len(names), distinct_ids=len(groups),
+        evaluations=n_pairs + n_pairs2 + res.transitions, pairs_evaluated=n_pairs, pairs_with_percent_escape_tokens_evaluated=n_pairs2,
+        percent_escape_tokens=tokens, names=len(names), distinct_ids=len(groups),
         pair_pairs_compared=n_pairs * (n_pairs - 1) // 2, colliding_ids=colliding_groups,
         colliding_pair_pairs=colliding_pairpairs, collisions_by_cause=per_cause, separator_chars=seps,
         distinct_nontrivial=nontrivial,
